@@ -172,6 +172,19 @@ struct Script {
 		return 1 + static_cast<int>(prng.below(static_cast<unsigned>(STATE_COUNT - 1)));
 	}
 
+	// destinations of API requests: often one of the last few, so that batches re-address the same branches
+	// (a later request overriding, repeating or conflicting with an earlier one of the same step)
+	int recent[4] = {0, 0, 0, 0};
+	int recentCount = 0;
+	int requestDest() {
+		if (recentCount > 0 && prng.chance(40))
+			return recent[prng.below(static_cast<unsigned>(recentCount))];
+		const int d = randomState(true);
+		if (recentCount < 4) recent[recentCount++] = d;
+		else recent[prng.below(4)] = d;
+		return d;
+	}
+
 	// destination biased towards structurally interesting relatives of `from`
 	int destinationFor(int from) {
 		const unsigned r = prng.below(100);
@@ -195,6 +208,7 @@ struct Script {
 			if (k == 3 && !knobs.allowSelect) continue;
 #if VH_UTIL
 			if ((k == 4 || k == 5) && !knobs.allowUtility) continue;
+			if (k == 5 && knobs.allowZeroUtil) continue;	// `randomize` draws over ANY region's sub-states: zero weights are out of contract
 #else
 			if (k == 4 || k == 5) continue;
 #endif
@@ -534,6 +548,13 @@ int8_t onRank(const TControl& c, int sid, int slot) {
 	return static_cast<int8_t>(v);
 }
 
+// a zero utility below a random region could make every top-rank weight zero (out of contract: nothing to draw)
+inline bool belowRandomRegion(int sid) {
+	for (int p = STATES[sid].parent; p >= 0; p = STATES[p].parent)
+		if (STATES[p].strategy == 4) return true;
+	return false;
+}
+
 template <typename TControl>
 float onUtility(const TControl& c, int sid, int slot) {
 	HarnessScope hs;
@@ -541,7 +562,7 @@ float onUtility(const TControl& c, int sid, int slot) {
 	const std::string obs = observeBasic(c);
 	const unsigned r = s.prng.below(100);
 	float v;
-	if (r < 6 && s.knobs.allowZeroUtil) v = 0.0f;
+	if (r < 25 && s.knobs.allowZeroUtil && !belowRandomRegion(sid)) v = 0.0f;	// legal for arg-max resolution (ties: leftmost)
 	else if (r < 30)	v = 1.0f;
 	else if (r < 45)	v = 0.5f;
 	else if (r < 55)	v = 0.1f;
